@@ -193,6 +193,11 @@ func (w *World) exchange(p *pfcpx.Peer, kind string, req map[string]interface{},
 	ev["markers"] = w.collectMarkers()
 	w.emit(ev)
 	w.Steps++
+
+	if (kind == "estab" || kind == "mod" || kind == "del") && len(ds) >= 1 && ds[0].Cause == 1 {
+		w.Accepted++
+	}
+
 	w.CheckAlive()
 
 	return ds
@@ -383,7 +388,7 @@ func (w *World) Del(peer string, r *SessReq) []pfcpx.Dgram {
 // InjectResp sends a response-type message; nothing may come back.
 func (w *World) InjectResp(peer string, which int, seid uint64) []pfcpx.Dgram {
 	p := w.Peer(peer)
-	seq := p.NextSeq() + 0x10000
+	seq := (p.NextSeq() + 0x10000) & 0xFFFFFF
 
 	var m message.Message
 
